@@ -459,6 +459,10 @@ def shutdown_scenarios(env):
                 why.append('the socket address cannot be re-bound at once')
             if got.get('service_clones_after') != 1:
                 why.append('clones of the user\'s service survive the shutdown')
+            if variant == 'explicit' and got.get('service_clones_when_shutdown_returned') != 1:
+                why.append('when shutdown() returned, clones of the user\'s service were still alive (a request handler in a stretch of work that does not yield was not waited for)')
+            if got.get('busy_inbound_rpc_seen_by_remote') != 'error':
+                why.append('the remote caller of a request being served by a busy handler was left hanging or got an answer')
             if len(lost) != sub.get('snapshot') or len(set(lost)) != len(lost) or not sub.get('stream_ended'):
                 why.append('a subscriber must receive a LostPeer for every connected peer and then end-of-stream')
             if got.get('weak_reference_upgrades'):
